@@ -144,7 +144,19 @@ def threaded_family(rep, tier, rng):
             steps.append({"sql": "SELECT * FROM A s1 LEFT JOIN B s2 ON s1.a = s2.a", "cancel": True})
         cases.append({"id": i, "rt": {"kind": "threaded", "threads": rng.choice([1, 2, 4, 16])}, "events": True,
                       "knobs": {"table_chunk_capacity": 4}, "steps": steps, "timeout": 60})
-    res = vlib.Driver(nworkers=6, case_timeout=60).run(cases)
+    # result back-pressure: many partitions blocked on the single-slot result stream and woken by the consumer while they are
+    # returning Pending - the wake-while-running transitions of the task state machine, thousands of times per statement
+    for j in range(3 if tier == "quick" else 20):
+        nrows = rng.choice([60000, 150000])
+        bs = rng.choice([32, 64])
+        steps = [{"sql": "CREATE TEMP TABLE big (a INT)"}, {"sql": f"INSERT INTO big SELECT * FROM generate_series(1, {nrows})"},
+                 {"sql": f"SET partitions = {rng.choice([8, 16])}"}, {"sql": f"SET batch_size = {bs}"}]
+        steps += [{"sql": "SELECT a FROM big"}, {"sql": "SELECT a FROM big WHERE a % 3 = 0"}, {"sql": "SELECT a + 1 FROM big"},
+                  {"sql": "SELECT a FROM big"}]
+        # table chunks no larger than the batch size (the engine's behaviour otherwise is the recorded finding KF-BATCH-LT-CHUNK)
+        cases.append({"id": len(cases), "rt": {"kind": "threaded", "threads": 16}, "events": True, "knobs": {"table_chunk_capacity": bs},
+                      "steps": steps, "timeout": 180})
+    res = vlib.Driver(nworkers=6, case_timeout=180, mem_gb=4).run(cases)
     task_traces, hj_lines, ha_lines, sm_lines, nstmts, all_events = [], [], [], [], 0, []
     for c, r in zip(cases, res):
         rep.cov["evaluations"] += 1
